@@ -1,8 +1,249 @@
 import MidnightZK.Model.Common
-/-! Line-protocol handler of property C18 (stub: answers `unimplemented`). -/
-namespace MidnightZK.C18.Driver
+import MidnightZK.Model.C18.In
+import MidnightZK.Model.C18.Bin
+/-! Line-protocol handler of property C18.
 
-def answer (_line : String) : String := "unimplemented"
+Request: `run <instr>... | <name>=<value>... | <hash-table>...`
+Answer:  `load:.. | trace:.. | off:.. | cmp:.. | pi:.. | mock:.. | bin:..`
+(the same sections the harness `h-c18` prints for the real implementation). -/
+namespace MidnightZK.C18.Driver
+open MidnightZK MidnightZK.C18
+
+def hexNoPrefix (n : Nat) : String := String.ofList (toHexAux n [])
+
+def hex2 (b : Nat) : String := String.ofList [hexDigit (b / 16), hexDigit (b % 16)]
+
+def hexBytes (bs : List Nat) : String := String.join (bs.map hex2)
+
+def parseHexBytes? (s : String) : Option (List Nat) := hexPairs s.toList
+
+def parseHexNat? (s : String) : Option Nat := if s.isEmpty then none else hexNat s.toList 0
+
+def fmtTy : IrType → String
+  | .bool => "bool"
+  | .bytes n => s!"bytes.{n}"
+  | .native => "native"
+  | .big n => s!"big.{n}"
+  | .point => "point"
+  | .scalar => "scalar"
+
+def parseTy? (parts : List String) : Option IrType :=
+  match parts with
+  | ["bool"] => some .bool
+  | ["bytes", n] => n.toNat?.map .bytes
+  | ["native"] => some .native
+  | ["big", n] => n.toNat?.map .big
+  | ["point"] => some .point
+  | ["scalar"] => some .scalar
+  | _ => none
+
+def fmtVal : IrValue → String
+  | .bool b => if b then "b:1" else "b:0"
+  | .bytes bs => "y:" ++ hexBytes bs
+  | .native x => "n:" ++ hexNoPrefix x
+  | .big x => "u:" ++ hexNoPrefix x
+  | .point u v => "p:" ++ hexNoPrefix u ++ "/" ++ hexNoPrefix v
+  | .scalar s => "s:" ++ hexNoPrefix s
+
+def parseVal? (s : String) : Option IrValue :=
+  match s.splitOn ":" with
+  | ["b", "1"] => some (.bool true)
+  | ["b", "0"] => some (.bool false)
+  | ["y", h] => (parseHexBytes? h).map .bytes
+  | ["n", h] => (parseHexNat? h).map .native
+  | ["u", h] => (parseHexNat? h).map .big
+  | ["s", h] => (parseHexNat? h).map .scalar
+  | ["p", h] =>
+    match h.splitOn "/" with
+    | [u, v] => match parseHexNat? u, parseHexNat? v with
+      | some u, some v => some (.point u v)
+      | _, _ => none
+    | _ => none
+  | _ => none
+
+def parseOp? (s : String) : Option Op :=
+  match s.splitOn "." with
+  | "load" :: t => (parseTy? t).map .load
+  | ["publish"] => some .publish
+  | ["assert_eq"] => some .assertEq
+  | ["assert_ne"] => some .assertNe
+  | ["is_eq"] => some .isEq
+  | ["add"] => some .add
+  | ["sub"] => some .sub
+  | ["mul"] => some .mul
+  | ["neg"] => some .neg
+  | ["mod_exp", n] => n.toNat?.map .modExp
+  | ["inner_product"] => some .innerProduct
+  | ["affine"] => some .affine
+  | ["into_bytes", n] => n.toNat?.map .intoBytes
+  | "from_bytes" :: t => (parseTy? t).map .fromBytes
+  | ["poseidon"] => some .poseidon
+  | ["sha256"] => some .sha256
+  | ["sha512"] => some .sha512
+  | _ => none
+
+def parseNames (s : String) : List String :=
+  if s.isEmpty then [] else (s.splitOn ",").map (fun n => if n = "%" then "" else n)
+
+def parseInstr? (s : String) : Option Instr :=
+  match s.splitOn ";" with
+  | [op, ins, outs] => (parseOp? op).map (fun o => { op := o, ins := parseNames ins, outs := parseNames outs })
+  | _ => none
+
+/-- Rust `Debug` of `IrType`. -/
+def dbgTy : IrType → String
+  | .bool => "Bool"
+  | .bytes n => s!"Bytes({n})"
+  | .native => "Native"
+  | .big n => s!"BigUint({n})"
+  | .point => "JubjubPoint"
+  | .scalar => "JubjubScalar"
+
+/-- Rust `Debug` of `Operation`. -/
+def dbgOp : Op → String
+  | .load t => s!"Load({dbgTy t})"
+  | .publish => "Publish"
+  | .assertEq => "AssertEqual"
+  | .assertNe => "AssertNotEqual"
+  | .isEq => "IsEqual"
+  | .add => "Add"
+  | .sub => "Sub"
+  | .mul => "Mul"
+  | .neg => "Neg"
+  | .modExp n => s!"ModExp({n})"
+  | .innerProduct => "InnerProduct"
+  | .affine => "AffineCoordinates"
+  | .intoBytes n => s!"IntoBytes({n})"
+  | .fromBytes t => s!"FromBytes({dbgTy t})"
+  | .poseidon => "Poseidon"
+  | .sha256 => "Sha256"
+  | .sha512 => "Sha512"
+
+/-- Canonical error class (the harness derives the same string from the Rust `Debug` text). -/
+def fmtErr : Err → String
+  | .arity op => s!"wrong_arity:_'{dbgOp op}'"
+  | .notFound n => s!"'{n}'_not_found"
+  | .dup n => s!"'{n}'_already_exists"
+  | .expecting a b => s!"type_{dbgTy a}_was_expected_instead_of_{dbgTy b}"
+  | .unsupported op ts => s!"{dbgOp op}_is_not_supported_on_[{",_".intercalate (ts.map dbgTy)}]"
+  | .assertion => "other:assert"
+  | .underflow => "other:underflow"
+  | .cannotConvert => "other:cannot-convert"
+  | .zeroModulus => "other:zero-modulus"
+  | .typeConvert => "other:type-convert"
+  | .expectingBytes => "other:expecting-bytes"
+  | .invalidLength => "other:invalid-length"
+  | .panic _ => "panic"
+
+structure Request where
+  prog : Program
+  wit : Witness
+  hashes : List (String × String)
+
+def parseRequest? (toks : List String) : Option Request := do
+  let rec go (toks : List String) (sec : Nat) (r : Request) : Option Request :=
+    match toks with
+    | [] => some r
+    | "|" :: rest => go rest (sec + 1) r
+    | t :: rest =>
+      if sec = 0 then
+        match parseInstr? t with
+        | some i => go rest sec { r with prog := r.prog ++ [i] }
+        | none => none
+      else if sec = 1 then
+        match t.splitOn "=" with
+        | [n, v] => match parseVal? v with
+          | some v => go rest sec { r with wit := r.wit ++ [((if n = "%" then "" else n), v)] }
+          | none => none
+        | _ => none
+      else
+        match t.splitOn "=" with
+        | [k, v] => go rest sec { r with hashes := r.hashes ++ [(k, v)] }
+        | _ => none
+  go toks 0 { prog := [], wit := [], hashes := [] }
+
+/-- The hash functions as the table passed with the request (uninterpreted in the model). -/
+def mkHashes (tbl : List (String × String)) : Hashes :=
+  { sha256 := fun bs => match lookup ("sha256:" ++ hexBytes bs) tbl with
+      | some o => (parseHexBytes? o).getD [] | none => List.replicate 32 0
+    sha512 := fun bs => match lookup ("sha512:" ++ hexBytes bs) tbl with
+      | some o => (parseHexBytes? o).getD [] | none => List.replicate 64 0
+    poseidon := fun xs => match lookup ("poseidon:" ++ ",".intercalate (xs.map hexNoPrefix)) tbl with
+      | some o => (parseHexNat? o).getD 0 | none => 0 }
+
+def joinWith (sep : String) (l : List String) : String := sep.intercalate l
+
+/-- Off-circuit run with the per-instruction trace (inputs and outputs resolved in the
+memory after the instruction). Returns the trace tokens and the final verdict. -/
+def traceOff (H : Hashes) (w : Witness) : Nat → OffState → Program → List String →
+    List String × Except (Nat × Err) OffState
+  | _, st, [], acc => (acc.reverse, .ok st)
+  | k, st, i :: rest, acc =>
+    match stepOff H w st i with
+    | .error e => (acc.reverse, .error (k, e))
+    | .ok st' =>
+      let vals (names : List String) : String :=
+        joinWith "," (names.map (fun n => match resolveOff st'.mem n with
+          | .ok v => fmtVal v | .error _ => "?"))
+      traceOff H w (k + 1) st' rest ((vals i.ins ++ ">" ++ vals i.outs) :: acc)
+
+def stripPublish (p : Program) : Program := p.filter (fun i => i.op ≠ .publish)
+
+/-- Do the public inputs bound by the circuit match the instance column built from `given`
+(missing entries of the column are zero)? -/
+def piMatch : List Nat → List Nat → Bool
+  | [], _ => true
+  | c :: cs, [] => c == 0 && piMatch cs []
+  | c :: cs, g :: gs => c == g && piMatch cs gs
+
+def mockVerdict (H : Hashes) (p : Program) (w : Witness) (given : List Nat) : String :=
+  match runIn H (some w) {} p with
+  | .error e => if e.isPanic then "panic" else "err:" ++ fmtErr e
+  | .ok st => if st.sat && piMatch st.pis given then "sat" else "unsat"
+
+def answerRun (withMock : Bool) (r : Request) : String :=
+  let H := mkHashes r.hashes
+  match loadProgram r.prog with
+  | .error e => "load:" ++ fmtErr e
+  | .ok () =>
+    let (trace, offRes) := traceOff H r.wit 0 {} r.prog []
+    let offS := match offRes with
+      | .ok st => "ok:" ++ joinWith "," (st.pis.map fmtVal)
+      | .error (k, e) => if e.isPanic then s!"panic@{k}" else s!"err@{k}:{fmtErr e}"
+    let cmp := compile H r.prog
+    let cmpS := match cmp with
+      | .ok ts => "ok:" ++ joinWith "," (ts.map fmtTy)
+      | .error e => if e.isPanic then "panic" else "err:" ++ fmtErr e
+    -- `public_inputs` skips the in-circuit pass when nothing is published
+    let pi : Option (Except Err (List Nat)) := match offRes, cmp with
+      | .ok st, .ok ts => some (encodePI st.pis ts)
+      | .ok st, .error _ => if st.pis.isEmpty then some (.ok []) else none
+      | _, _ => none
+    let piS := match pi with
+      | none => "-"
+      | some (.ok fs) => "ok:" ++ joinWith "," (fs.map hexNoPrefix)
+      | some (.error _) => "err"
+    let mockS := if !withMock then "-" else match cmp with
+      | .error _ => "-"
+      | .ok _ =>
+        match offRes, pi with
+        | .ok _, some (.ok fs) => mockVerdict H r.prog r.wit fs
+        | .error (k, _), _ => "np:" ++ mockVerdict H (stripPublish (r.prog.take (k + 1))) r.wit []
+        | _, _ => "-"
+    joinWith " | " ["load:ok", "trace:" ++ joinWith " " trace, "off:" ++ offS, "cmp:" ++ cmpS,
+      "pi:" ++ piS, "mock:" ++ mockS, "bin:" ++ hexBytes (encodeBin r.prog)]
+
+def answer (line : String) : String :=
+  match words line with
+  | "run" :: rest =>
+    match parseRequest? rest with
+    | some r => answerRun true r
+    | none => "bad-op"
+  | "run0" :: rest =>
+    match parseRequest? rest with
+    | some r => answerRun false r
+    | none => "bad-op"
+  | _ => "bad-op"
 
 end MidnightZK.C18.Driver
 
